@@ -96,7 +96,7 @@ def make_graph(r, pairs, D, massive=None, externals=None, wkind=None):
         massive = [mode == 1 or (mode >= 2 and r.chance(0.5)) for _ in range(E)]
     vs = sorted({v for p in pairs for v in p})
     if externals is None:
-        k = r.below(6)
+        k = r.below(7)
         if k == 0:
             externals = list(vs)
         elif k == 1:
@@ -211,8 +211,40 @@ def accepted(g):
     return not divergent_subsets(tab), tab, dod, L
 
 
+def gen_spanning_sensitive(r, emax, Ds):
+    """accepted massless graphs whose two external vertices are the endpoints of the LAST edge and whose overall degree of
+    divergence is small: many disconnected proper subsets are mass-momentum spanning through a component that does not
+    contain the lowest-numbered edge, so the table depends on every component being inspected"""
+    cands = [(n, f) for n, f in FAMILIES if n in ("box", "pentagon", "double_triangle", "mercedes", "ladder2", "triangle_chain3", "banana4", "tailed_triangle", "dumbbell")]
+    for _ in range(30):
+        name, fam = r.choice(cands)
+        pairs = fam()
+        if len(pairs) > emax or len(pairs) < 4:
+            continue
+        pairs = relabel(r, pairs)
+        r.shuffle(pairs)
+        a, b = pairs[-1]
+        if a == b:
+            continue
+        D = r.choice(Ds)
+        Lg = loop_number(pairs, list(range(len(pairs))))
+        for _ in range(8):
+            base = [0.5 + r.unit() for _ in pairs]
+            sc = (Lg * D / 2.0 + r.choice([0.0625, 0.125, 0.25, 0.5])) / sum(base)
+            g = dict(edges=[(p[0], p[1], False, bw * sc) for p, bw in zip(pairs, base)], externals=[a, b], D=D)
+            ok, tab, dod, L = accepted(g)
+            if ok and dod > 0 and min((t[2] for t in tab[1:-1]), default=Fraction(1)) > Fraction(1, 20):
+                g["family"] = name + "/two-point"
+                return g
+    return None
+
+
 def gen_accepted(r, emax=6, tries=60, connected=False, fams=None, want_dod_pos=True, Ds=(1, 2, 3, 4, 5, 6), ext_all=False):
     """an accepted graph (no divergent proper subgraph, dod > 0), by rejection on a weight grid"""
+    if fams is None and not ext_all and want_dod_pos and emax >= 4 and r.chance(0.15):
+        g = gen_spanning_sensitive(r, emax, Ds)
+        if g is not None:
+            return g
     fams = fams or FAMILIES
     for _ in range(tries):
         name, fam = r.choice(fams)
@@ -226,15 +258,26 @@ def gen_accepted(r, emax=6, tries=60, connected=False, fams=None, want_dod_pos=T
             r.shuffle(pairs)               # the edge numbering is arbitrary: the lowest-numbered edge need not touch an external vertex
         D = r.choice(Ds)
         g = make_graph(r, pairs, D, externals=(sorted({v for p in pairs for v in p}) if ext_all else None))
+        thr = False
         for _ in range(12):
             ok, tab, dod, L = accepted(g)
             min_gd = min((t[2] for t in tab[1:-1]), default=Fraction(1))
-            if ok and (dod > 0 or not want_dod_pos) and min_gd > Fraction(1, 1000):
+            if ok and (dod > 0 or not want_dod_pos) and min_gd > (Fraction(1, 20) if thr else Fraction(1, 1000)):
                 g["family"] = name
                 return g
             # re-draw weights (and sometimes masses)
-            wk = r.choice(["grid", "double"])
-            g["edges"] = [(a, b, (m or r.chance(0.3)), rand_weight(r, wk)) for a, b, m, w in g["edges"]]
+            wk = r.choice(["grid", "double", "threshold"])
+            thr = wk == "threshold"
+            if wk == "threshold":
+                # a small positive overall degree of divergence: with few external vertices many proper subgraphs are
+                # mass-momentum spanning and only such weights make the graph acceptable
+                base = [0.5 + r.unit() for _ in g["edges"]]
+                Lg = loop_number(g["edges"], list(range(len(g["edges"]))))
+                target = Lg * D / 2.0 + r.choice([0.0625, 0.125, 0.25, 0.5])
+                sc = target / sum(base)
+                g["edges"] = [(a, b, m, bw * sc) for (a, b, m, w), bw in zip(g["edges"], base)]
+            else:
+                g["edges"] = [(a, b, (m or r.chance(0.3)), rand_weight(r, wk)) for a, b, m, w in g["edges"]]
     # fallback: massive bubble, always accepted for D <= 3
     g = make_graph(r, [(0, 1), (0, 1)], 3, massive=[True, True], externals=[0, 1], wkind="unit")
     g["family"] = "fallback_bubble"
